@@ -11,9 +11,10 @@ VARIABLES phase, M, q
 vars == <<phase, M, q>>
 
 NS == <<"n1", "n2", "n3">>
-SrcPool == {"A", "A$B", "A$B$C", "A$B$C$D", "p/q/A", "p/q/A$B", "A$", "$B", "p/$B", "A$1", "X$Y"}
+SrcPool == {"A", "A$B", "A$B$C", "A$B$C$D", "p/q/A", "p/q/A$B", "A$", "$B", "p/$B", "A$1", "X$Y",
+            "A$1$L"}      \* a class inside an anonymous one: with A$1 not in the set it is an orphan like any other (seed C11-10)
 Simple(src) == CASE src = "A" -> "a" [] src = "A$B" -> "b" [] src = "A$B$C" -> "c" [] src = "A$B$C$D" -> "d"
-                 [] src = "p/q/A" -> "r/a" [] src = "p/q/A$B" -> "bb" [] src = "A$1" -> "k/1" [] src = "X$Y" -> "y" [] OTHER -> "z"
+                 [] src = "p/q/A" -> "r/a" [] src = "p/q/A$B" -> "bb" [] src = "A$1" -> "k/1" [] src = "X$Y" -> "y" [] src = "A$1$L" -> "l" [] OTHER -> "z"
 TargetOpts(src) == {"", Simple(src)} \cup (IF Tier = 0 THEN {} ELSE {"u$v"})
 NamePool == SrcPool \cup {"a", "p/q$r/s", "p/q$r", "$", "$$", "a$$b", "p/$", "a/$b", "a$b/c", "é$ü"}
 
